@@ -59,7 +59,7 @@ class ApplicationException(Exception):
     def from_pydantic_error(cls, error: pydantic.ValidationError, file: Path = None):
         outputs = []
         for error in error.errors():
-            location = '.'.join([error for error in error['loc'] if "function-after" not in error])
+            location = '.'.join([str(error) for error in error['loc'] if "function-after" not in str(error)])
             outputs.append(f"in key '{location}': {error['msg']}")
         joined_output = '\n'.join(outputs)
         if file:
